@@ -94,7 +94,6 @@ Proof.
   - intros t e t' [H1 H2] _ E. split; [eapply merge_in_tinv|eapply merge_in_kdistinct]; eauto.
   - intros a b Hp [H1 H2]. split; [eapply tinv_perm|eapply kdistinct_perm]; eauto.
   - auto.
-  - exact I.
   - apply SP_init. split; [apply tinv_nil; assumption|constructor].
   - apply G_init.
   - apply Forall_forall. intros o _. destruct o; exact I.
@@ -172,10 +171,9 @@ Proof.
     eapply kall_merge_in; [apply good_overflow| | |]; eauto.
   - intros a b Hp [H1 [H2 H3]]. split; [eapply tinv_perm; eauto|]. split; [eapply kdistinct_perm; eauto|eapply kall_perm; eauto].
   - intros t e [_ [_ H]] Hin. eapply kall_in; eauto.
-  - apply good_nil.
   - apply SP_init. split; [apply tinv_nil; assumption|]. split; constructor.
   - apply G_init.
-  - apply Forall_forall. intros o Ho. destruct o as [kvs v|v|i]; cbn; auto. apply good_mk_attrs.
+  - apply Forall_forall. intros o Ho. destruct o as [kvs v|v|i]; cbn; auto; [|apply good_nil]. apply good_mk_attrs.
     unfold ops_nan_free in Hn. apply negb_true_iff in Hn. destruct (kvs_nan kvs) eqn:E; [|reflexivity].
     assert (existsb op_nan ops = true) by (apply existsb_exists; exists (ORec kvs v); auto). congruence.
 Qed.
@@ -197,6 +195,33 @@ Theorem nan_free_never_crashes_lemma c ops walks : (1 <= c_limit c)%nat -> ops_n
   ~ In CCrash (run_ops c ops walks (init_storage c)).
 Proof.
   intros HL Hn. eapply results_ok_no_crash; [|apply history_ok_nan_free; eassumption]. intros k Hk. apply good_self. assumption.
+Qed.
+
+(* ------------------------------------------------------------------ instance 3: no series out of thin air *)
+(* the attribute sets that may be reported on a history: the overflow set and the filtered set of a recorded measurement *)
+Definition recorded_set (f : afilter) (ops : list op) (k : attrs) : Prop :=
+  k = overflow_attrs \/ (exists v, In (ORec0 v) ops /\ k = []) \/ exists kvs v, In (ORec kvs v) ops /\ k = mk_attrs f kvs.
+
+Theorem reported_sets_recorded_lemma c ops walks t e :
+  In (CReport t) (run_ops c ops walks (init_storage c)) -> In e t -> recorded_set (c_filter c) ops (fst e).
+Proof.
+  intros Hin He.
+  set (Q := recorded_set (c_filter c) ops).
+  assert (Hq : Q overflow_attrs) by (left; reflexivity).
+  assert (H : results_ok c (kall Q) Q (run_ops c ops walks (init_storage c)) ops [] (map (fun _ => O) (c_temps c))).
+  { apply run_ops_ok.
+    - constructor.
+    - intros. apply kall_record; assumption.
+    - intros. eapply kall_record_ref; eauto.
+    - intros. eapply kall_merge_in; eauto.
+    - intros. eapply kall_perm; eauto.
+    - intros. eapply kall_in; eauto.
+    - apply SP_init. constructor.
+    - apply G_init.
+    - apply Forall_forall. intros o Ho. destruct o as [kvs v|v|i]; cbn; auto.
+      + right. right. exists kvs, v. auto.
+      + right. left. exists v. auto. }
+  pose proof (results_ok_reports _ _ _ _ _ _ _ t H Hin) as Ht. exact (kall_in Q t e Ht He).
 Qed.
 
 (* ------------------------------------------------------------------ spec-level distinctness from the map comparison *)
@@ -348,7 +373,7 @@ Qed.
 
 Theorem eq_meets_spec f a b : kvs_nan a = false -> kvs_nan b = false -> eq_clauses f a b (eq_model f a b) = [].
 Proof.
-  intros Ha Hb. unfold eq_clauses, eq_model. cbn [eo_a eo_b eo_base eo_full eo_hash eo_series eo_paths].
+  intros Ha Hb. unfold eq_clauses, eq_model. cbn [eo_a eo_b eo_base eo_full eo_hash eo_series eo_paths eo_phash].
   rewrite !canon_clauses_ok. cbn [app]. rewrite Ha, Hb. cbn [orb].
   rewrite <- (attrs_eqb_iff_sets_equal f a b Ha).
   (* the pair lands in one series of a table with room iff the maps compare equal *)
